@@ -5,6 +5,7 @@ import (
 	"net/netip"
 
 	"github.com/AdguardTeam/AdGuardDNS/internal/agd"
+	"github.com/AdguardTeam/AdGuardDNS/internal/agdnet"
 	"github.com/AdguardTeam/AdGuardDNS/internal/optslog"
 	"github.com/miekg/dns"
 )
@@ -17,20 +18,26 @@ func (mw *Middleware) isBlockedByAccess(
 	req *dns.Msg,
 	raddr netip.AddrPort,
 ) (isBlocked bool) {
+	// Match the global rules against the normalized name of the question as
+	// opposed to ri.Host, which is empty for the root domain, so that queries
+	// for the root can be blocked globally in the same way as by the profile
+	// access settings.  See [agdnet.NormalizeQueryDomain].
+	host := agdnet.NormalizeQueryDomain(req.Question[0].Name)
+
 	// NOTE:  Global access has priority over the profile one.
 	if mw.accessManager.IsBlockedIP(raddr.Addr()) {
 		mw.metrics.IncrementAccessBlockedBySubnet(ctx)
 		optslog.Debug1(ctx, mw.logger, "access denied globally by ip", "remote_ip", ri.RemoteIP)
 
 		return true
-	} else if mw.accessManager.IsBlockedHost(ri.Host, ri.QType) {
+	} else if mw.accessManager.IsBlockedHost(host, ri.QType) {
 		mw.metrics.IncrementAccessBlockedByHost(ctx)
 		optslog.Debug2(
 			ctx,
 			mw.logger,
 			"access denied globally by rule",
 			"remote_ip", ri.RemoteIP,
-			"host", ri.Host,
+			"host", host,
 		)
 
 		return true
